@@ -453,7 +453,7 @@ pub fn run(args: &Args) {
             }
             match &r.end {
                 End::Panic(m) if m.contains("underflow") || m.contains("Should have") => {
-                    sum.violation(ImplViolation { key: format!("vm-stack-panic:{}", if src.to_uppercase().contains("ON ERROR") { "on-error" } else { "plain" }), input: format!("{} {}", origin, one_line), expected: "no stack underflow".into(), observed: m.clone() });
+                    sum.violation(ImplViolation { key: format!("vm-stack-panic:{}", if src.to_uppercase().contains("ON ERROR") { format!("on-error:{}", last_error_kind(src, &r)) } else { "plain".to_string() }), input: format!("{} {}", origin, one_line), expected: "no stack underflow".into(), observed: m.clone() });
                 }
                 _ => {}
             }
